@@ -237,7 +237,7 @@ func TestEngineErc20(t *testing.T) {
 		return big.NewInt(0)
 	}
 
-	callers := []int{1, 1, 2, 2, 3, 4, 5, 6, 0, 7, 92, 90}
+	callers := []int{1, 1, 2, 2, 3, 3, 4, 5, 6, 0, 7, 92, 90}
 	anyAddr := func() int { return hx.Pick(r, f.ids) }
 	amountFor := func(holder, den int) *big.Int {
 		b := bk.GetBalance(f.ctx, f.addrs[holder].Bytes(), f.denoms[den]).Amount.BigInt()
@@ -375,7 +375,14 @@ func TestEngineErc20(t *testing.T) {
 			doCall(tok, caller, "transfer", anyAddr(), 0, amountFor(caller, den))
 		case k < 54:
 			from := anyAddr()
-			doCall(tok, caller, "transferFrom", from, anyAddr(), amountFor(from, den))
+			amt := amountFor(from, den)
+			if al := f.c.s.ChainApp.CpcKeeper().GetErc20CpcAllowance(f.ctx, f.addrs[from], f.addrs[caller]); al.Sign() > 0 && r.Chance(1, 3) {
+				amt = new(big.Int).Set(al) // spend the allowance exactly: the entry must disappear
+				if al.Cmp(maxU256) == 0 || r.Chance(1, 4) {
+					amt = new(big.Int).Sub(al, big.NewInt(1))
+				}
+			}
+			doCall(tok, caller, "transferFrom", from, anyAddr(), amt)
 		case k < 72:
 			sp := anyAddr()
 			amt := amountFor(caller, den)
@@ -387,7 +394,11 @@ func TestEngineErc20(t *testing.T) {
 			doCall(tok, caller, "burn", 0, 0, amountFor(caller, den))
 		case k < 90:
 			from := anyAddr()
-			doCall(tok, caller, "burnFrom", from, 0, amountFor(from, den))
+			amt := amountFor(from, den)
+			if al := f.c.s.ChainApp.CpcKeeper().GetErc20CpcAllowance(f.ctx, f.addrs[from], f.addrs[caller]); al.Sign() > 0 && al.Cmp(maxU256) != 0 && r.Chance(1, 3) {
+				amt = new(big.Int).Set(al)
+			}
+			doCall(tok, caller, "burnFrom", from, 0, amt)
 		default:
 			// native bank send through the real message server
 			from, to := 1+r.Intn(4), anyAddr()
